@@ -299,6 +299,56 @@ func run(r *mon.Run) {
 			}
 		}
 	}
+	// the same for LARGE bundles: one exchange the writer refuses (header names equal after case folding; a URL that is not
+	// valid UTF-8) among 2..300 good ones, at the start, in the middle and at the end
+	{
+		oi := 0
+		for _, ver := range []version.Version{version.VersionB1, version.VersionB2} {
+			for _, n := range []int{2, 63, 64, 65, 130, 300} {
+				for _, badKind := range []string{"case-colliding-header-names", "url-invalid-utf8"} {
+					for _, at := range []int{0, 3, n / 2, n - 2, n - 1} {
+						oi++
+						if !r.Mine(oi) || at < 0 || at >= n {
+							continue
+						}
+						b := &bundle.Bundle{Version: ver}
+						for k := 0; k < n; k++ {
+							u, _ := url.Parse(fmt.Sprintf("https://example.com/big/%d", k))
+							e := &bundle.Exchange{Request: bundle.Request{URL: u, Header: http.Header{}}, Response: bundle.Response{Status: 200, Header: http.Header{"Content-Type": {"text/plain"}}, Body: []byte(fmt.Sprintf("resource %d", k))}}
+							if k == at {
+								if badKind == "url-invalid-utf8" {
+									e.Request.URL, _ = url.Parse(fmt.Sprintf("https://example.com/big/%d?q=\xff", k))
+								} else {
+									e.Response.Header = http.Header{"Content-Type": {"text/plain"}, "X-Tag": {"a"}, "x-tag": {"b"}}
+								}
+							}
+							b.Exchanges = append(b.Exchanges, e)
+						}
+						if ver == version.VersionB1 {
+							b.PrimaryURL = b.Exchanges[(at+1)%n].Request.URL
+						}
+						w := &gen.RecWriter{}
+						var cnt int64
+						var err error
+						p, _ := r.Call(fmt.Sprintf("odd-large/%s/n%d/%s@%d", ver, n, badKind, at), nil, func() { cnt, err = b.WriteTo(w) })
+						outcome := "odd-large:refused-with-error"
+						switch {
+						case p:
+							outcome = "odd-large:refused-by-panic"
+						case err == nil:
+							outcome = "odd-large:emitted-well-formed"
+							if verr := rbundle.Validate(w.Buf, string(ver)); verr != nil || cnt != int64(len(w.Buf)) {
+								outcome = "odd-large:EMITTED-MALFORMED"
+								r.Violation(fmt.Sprintf("wf:odd-large:%s:%d:%s:%d", ver, n, badKind, at), fmt.Sprintf("the writer accepted a %s bundle of %d exchanges whose exchange %d has %s and emitted, without error, %d bytes (returned count %d) that the independent strict validator rejects: %v", ver, n, at, badKind, len(w.Buf), cnt, verr), nil)
+							}
+						}
+						r.Eval(outcome)
+						r.Distinct(fmt.Sprintf("odd-large|%s|n%d|%s|%s", ver, n, badKind, outcome))
+					}
+				}
+			}
+		}
+	}
 	// bundles tuned so that an offset / a length / a section length hits a head boundary exactly
 	if r.Shard == 1%r.NShards {
 		for _, ver := range []version.Version{version.VersionB1, version.VersionB2} {
